@@ -1,7 +1,79 @@
 //! Property C11 — prover/verifier transcripts stay in lock-step; proofs are bound to them.
+use crate::common::*;
+use crate::generic::{ColH, MTConfig, MlLigeroPC, UniLigeroPC, UniPoly};
 use crate::Ctx;
+use ark_bls12_381::Fr;
+use ark_crypto_primitives::sponge::CryptographicSponge;
+use ark_ff::UniformRand;
+use ark_poly::{DenseUVPolynomial, MultilinearExtension, Polynomial, SparseMultilinearExtension};
+use ark_poly_commit::linear_codes::LigeroPCParams;
+use ark_poly_commit::{LabeledPolynomial, PolynomialCommitment};
 
 pub fn run(ctx: &mut Ctx) {
     crate::generic::c11_all(ctx);
     crate::props_marlin::c11(ctx);
+    lincode_without_wellformedness(ctx);
+}
+
+/// Linear codes with the well-formedness check disabled: the column indices are then the only
+/// transcript-derived part of a proof — small polynomials (every column opened) included.
+fn lincode_without_wellformedness(ctx: &mut Ctx) {
+    let n = ctx.n(12, 120);
+    for i in 0..n {
+        let id = format!("C11/lincode-nowf/{}", i);
+        if !ctx.selected(&id) { continue; }
+        let mut rng = rng_for(ctx.seed, "C11/lincode-nowf", i as u64);
+        let sec = [128usize, 80, 32][range(&mut rng, 0, 2)];
+        let rho = [2usize, 4][range(&mut rng, 0, 1)];
+        let pp: LigeroPCParams<Fr, MTConfig, ColH> = LigeroPCParams::new(sec, rho, false, (), (), ());
+        let multilinear = coin(&mut rng);
+        // two sponges with different prior absorbs
+        let mut sp_a = LogSponge::fresh();
+        sp_a.absorb_seed(1000 + i as u64);
+        let mut sp_b = LogSponge::fresh();
+        sp_b.absorb_seed(2000 + i as u64);
+        let (accepted_own, accepted_other, same_log, desc) = if multilinear {
+            let nv = range(&mut rng, 2, 8);
+            let p = SparseMultilinearExtension::<Fr>::rand(nv, &mut rng);
+            let lp = LabeledPolynomial::new("p".to_string(), p.clone(), None, None);
+            let (ck, vk) = MlLigeroPC::trim(&pp, 0, 0, None).unwrap();
+            let (c, st) = match guarded(|| MlLigeroPC::commit(&ck, [&lp], None)) { Ok(Ok(x)) => x, _ => continue };
+            let z: Vec<Fr> = (0..nv).map(|_| Fr::rand(&mut rng)).collect();
+            let v = p.evaluate(&z);
+            let mut prover = sp_a.clone();
+            let proof = match guarded(|| MlLigeroPC::open(&ck, [&lp], &c, &z, &mut prover, &st, None)) { Ok(Ok(x)) => x, _ => continue };
+            let mut v_own = sp_a.clone();
+            let own = matches!(guarded(|| MlLigeroPC::check(&vk, &c, &z, [v], &proof, &mut v_own, None)), Ok(Ok(true)));
+            let mut v_other = sp_b.clone();
+            let other = matches!(guarded(|| MlLigeroPC::check(&vk, &c, &z, [v], &proof, &mut v_other, None)), Ok(Ok(true)));
+            (own, other, prover.log == v_own.log && prover.probe() == v_own.probe(), format!("ml-ligero nv={} sec={} rho_inv={} wf=off", nv, sec, rho))
+        } else {
+            let d = range(&mut rng, 1, 80);
+            let p = UniPoly::rand(d, &mut rng);
+            let lp = LabeledPolynomial::new("p".to_string(), p.clone(), None, None);
+            let (ck, vk) = UniLigeroPC::trim(&pp, 0, 0, None).unwrap();
+            let (c, st) = match guarded(|| UniLigeroPC::commit(&ck, [&lp], None)) { Ok(Ok(x)) => x, _ => continue };
+            let z = Fr::rand(&mut rng);
+            let v = p.evaluate(&z);
+            let mut prover = sp_a.clone();
+            let proof = match guarded(|| UniLigeroPC::open(&ck, [&lp], &c, &z, &mut prover, &st, None)) { Ok(Ok(x)) => x, _ => continue };
+            let mut v_own = sp_a.clone();
+            let own = matches!(guarded(|| UniLigeroPC::check(&vk, &c, &z, [v], &proof, &mut v_own, None)), Ok(Ok(true)));
+            let mut v_other = sp_b.clone();
+            let other = matches!(guarded(|| UniLigeroPC::check(&vk, &c, &z, [v], &proof, &mut v_other, None)), Ok(Ok(true)));
+            (own, other, prover.log == v_own.log && prover.probe() == v_own.probe(), format!("uni-ligero deg={} sec={} rho_inv={} wf=off", d, sec, rho))
+        };
+        let rp = format!("# scheme: linear code, well-formedness check disabled\n# case: {}\n# seed: {}\n# {}\n# rerun: .build/cargo/debug/pcv-harness C11 --seed {} --only {}\n", id, ctx.seed, desc, ctx.seed, id);
+        if !accepted_own {
+            ctx.rep.expect_fail(&id, "lincode/history-rejected/open", "honest proof rejected on the prover's own transcript", rp.clone());
+        }
+        if accepted_own && !same_log {
+            ctx.rep.expect_fail(&id, "lincode/sponge-diverged/open", "prover and verifier transcripts differ after an accepted opening", rp.clone());
+        }
+        if accepted_other {
+            ctx.rep.expect_fail(&id, "lincode/accepted-on-other-transcript/pre-state", "proof accepted against a sponge with different prior absorbs (well-formedness check off)", rp.clone());
+        }
+        ctx.rep.count(if multilinear { "lincode-nowf/ml" } else { "lincode-nowf/uni" });
+        ctx.rep.case(&format!("{} own={} other={}", desc, accepted_own, accepted_other), Some(format!("lincode-nowf/{}", desc)));
+    }
 }
